@@ -381,6 +381,91 @@ fn matrix_small_det_f64(d: &mut Draw) -> Outcome {
     pass(cls, true)
 }
 
+
+// ---- f64: composing matrix transforms when one factor is (nearly) the identity -------------------------------------------
+
+/// concat, concat_self and * are one and the same product, entry by entry, also when the right factor differs from the
+/// identity by 1e-30 .. 1e-3 only and the left factor is huge or tiny; and the composition acts like the factors in turn
+fn matrix_compose_f64(d: &mut Draw) -> Outcome {
+    let n = d.int(3, 4) as usize;
+    let two_d = n == 3 && d.bool();
+    let big = d.f64_slog(1e-20, 1e20);
+    let mut ts = RM::<f64>::ident(n);
+    let lin = if two_d { 2 } else { 3.min(n) };
+    for c in 0..lin {
+        for r in 0..lin {
+            ts.e[c][r] = if c == r { big } else if d.chance(1, 3) { big * d.f64_in(-1.0, 1.0) } else { 0.0 };
+        }
+    }
+    if two_d || n == 4 {
+        for r in 0..n - 1 {
+            ts.e[n - 1][r] = if d.bool() { 0.0 } else { d.f64_slog(1e-3, 1e3) };
+        }
+    }
+    let kind = d.int(0, 2);
+    let mut tt = RM::<f64>::ident(n);
+    let rows = if two_d || n == 4 { n - 1 } else { n };
+    match kind {
+        0 => {
+            for _ in 0..d.int(1, 3) {
+                let (c, r) = (d.below(n), d.below(rows));
+                tt.e[c][r] += d.f64_slog(1e-30, 1e-3);
+            }
+        }
+        1 => {}
+        _ => {
+            for c in 0..n {
+                for r in 0..rows {
+                    tt.e[c][r] = d.f64_slog(1e-3, 1e3);
+                }
+            }
+        }
+    }
+    d.note("s", &ts);
+    d.note("t", &tt);
+    let want = ts.mul(&tt);
+    let scale = ts.map(|x| x.abs()).mul(&tt.map(|x| x.abs()));
+    let p: Vec<f64> = (0..3).map(|_| if d.chance(1, 3) { 0.0 } else { d.f64_slog(1e-20, 1e3) }).collect();
+    d.note("p", &p);
+    macro_rules! go {
+        ($mk:ident, $P:ty, $pt:expr, $who:expr) => {{
+            let (s_, t_) = ($mk(&ts), $mk(&tt));
+            let prod = (s_ * t_).rm();
+            let conc = Transform::<$P>::concat(&s_, &t_).rm();
+            let mut cs = s_;
+            Transform::<$P>::concat_self(&mut cs, &t_);
+            for c in 0..n {
+                for r in 0..n {
+                    let tol = 8.0 * f64::EPSILON * scale.e[c][r] + 1e-300;
+                    ensure!((prod.e[c][r] - want.e[c][r]).abs() <= tol, "compose-product-f64", "{}: (s*t)[{}][{}] = {:e}, reference {:e}", $who, c, r, prod.e[c][r], want.e[c][r]);
+                    ensure!((conc.e[c][r] - want.e[c][r]).abs() <= tol, "compose-concat-f64", "{}: concat(s,t)[{}][{}] = {:e}, reference {:e}", $who, c, r, conc.e[c][r], want.e[c][r]);
+                    ensure!((cs.rm().e[c][r] - want.e[c][r]).abs() <= tol, "compose-concat_self-f64", "{}: s.concat_self(t)[{}][{}] = {:e}, reference {:e}", $who, c, r, cs.rm().e[c][r], want.e[c][r]);
+                }
+            }
+            // applied to a point: concat(s,t)(p) against s(t(p)), each component to the rounding of its own sum
+            let pt: $P = $pt;
+            let a1 = Transform::<$P>::transform_point(&Transform::<$P>::concat(&s_, &t_), pt);
+            let a2 = Transform::<$P>::transform_point(&s_, Transform::<$P>::transform_point(&t_, pt));
+            (a1, a2)
+        }};
+    }
+    let tolp = |mag: f64| 32.0 * f64::EPSILON * mag + 1e-300;
+    if two_d {
+        let (a1, a2) = go!(mk_m3, Point2<f64>, Point2::new(p[0], p[1]), "Matrix3 as a 2-D transform");
+        let mag: Vec<f64> = (0..2).map(|r| (0..3).map(|c| scale.e[c][r] * [p[0].abs(), p[1].abs(), 1.0][c]).sum()).collect();
+        ensure!((a1.x - a2.x).abs() <= tolp(mag[0]) && (a1.y - a2.y).abs() <= tolp(mag[1]), "compose-applies-f64", "Matrix3 (2-D): concat(s,t)(p) = {:?} but s(t(p)) = {:?}", a1, a2);
+    } else if n == 3 {
+        let (a1, a2) = go!(mk_m3, Point3<f64>, Point3::new(p[0], p[1], p[2]), "Matrix3 as a 3-D transform");
+        let mag: Vec<f64> = (0..3).map(|r| (0..3).map(|c| scale.e[c][r] * p[c].abs()).sum()).collect();
+        ensure!((a1.x - a2.x).abs() <= tolp(mag[0]) && (a1.y - a2.y).abs() <= tolp(mag[1]) && (a1.z - a2.z).abs() <= tolp(mag[2]), "compose-applies-f64", "Matrix3 (3-D): concat(s,t)(p) = {:?} but s(t(p)) = {:?}", a1, a2);
+    } else {
+        let (a1, a2) = go!(mk_m4, Point3<f64>, Point3::new(p[0], p[1], p[2]), "Matrix4");
+        let mag: Vec<f64> = (0..3).map(|r| (0..4).map(|c| scale.e[c][r] * [p[0].abs(), p[1].abs(), p[2].abs(), 1.0][c]).sum()).collect();
+        ensure!((a1.x - a2.x).abs() <= tolp(mag[0]) && (a1.y - a2.y).abs() <= tolp(mag[1]) && (a1.z - a2.z).abs() <= tolp(mag[2]), "compose-applies-f64", "Matrix4: concat(s,t)(p) = {:?} but s(t(p)) = {:?}", a1, a2);
+    }
+    pass(["right-factor-nearly-identity", "right-factor-identity", "right-factor-generic"][kind as usize], true)
+}
+
 pub fn property() -> Property {
     let mut s = Vec::new();
     macro_rules! add {
@@ -399,6 +484,7 @@ pub fn property() -> Property {
     add!("matrix4-Fp", "Fp", m4_exact::<Fp>, 3000, 200_000, 192, &[("affine-generic", 100), ("projective", 100), ("affine-times-scalar", 80), ("singular", 50)], "linear parts with all entries non-zero");
     add!("matrix3-Q", "Q", m3_exact::<Q>, 3000, 200_000, 192, &[("generic", 100), ("singular", 50)], "linear parts with all entries non-zero");
     add!("matrix3-Fp", "Fp", m3_exact::<Fp>, 3000, 200_000, 192, &[("generic", 100), ("singular", 50)], "linear parts with all entries non-zero");
+    add!("matrix_compose-f64", "f64", matrix_compose_f64, 6000, 400_000, 96, &[("right-factor-nearly-identity", 200), ("right-factor-identity", 100), ("right-factor-generic", 200)], "every generated pair of affine matrices");
     add!("scale_threshold-f64", "f64", scale_threshold_f64, 10000, 500_000, 64,
         &[("zero", 100), ("negligible", 100), ("just-above", 50), ("small", 50), ("ordinary", 200)], "every generated transform; scale classes zero / negligible / just above 1e-6 / small / ordinary required");
     add!("matrix_small_determinant-f64", "f64", matrix_small_det_f64, 8000, 400_000, 64,
